@@ -68,6 +68,8 @@ module Z :
   val of_nat : nat -> z
  end
 
+val tl : 'a1 list -> 'a1 list
+
 val nth : nat -> 'a1 list -> 'a1 -> 'a1
 
 val nth_error : 'a1 list -> nat -> 'a1 option
@@ -189,9 +191,7 @@ val tp_ver : world -> nat -> z
 
 val inst_m : ostate -> z option
 
-val bump_subs : hier -> nat -> z -> nat -> cstate list -> cstate list
-
-val set_class : bool -> hier -> world -> nat -> value option -> world
+val set_class : world -> nat -> value option -> world
 
 val set_obj : world -> nat -> ostate -> world
 
@@ -205,19 +205,23 @@ val set_cache : world -> nat -> (z * z) -> world
 
 val prefilter : hier -> nat -> bool
 
+val is_ext : cls -> bool
+
+val static_bases : hier -> nat -> bool
+
 val slow_path :
-  bool -> hier -> world -> nat -> nat -> ostate -> world * result
+  bool -> bool -> hier -> world -> nat -> nat -> ostate -> world * result
 
 val cbody :
-  bool -> hier -> world -> nat -> bool -> nat -> ostate -> world * result
+  bool -> bool -> hier -> world -> nat -> bool -> nat -> ostate ->
+  world * result
 
-val dispatch_cy : bool -> hier -> world -> nat -> ostate -> world * result
+val dispatch_cy :
+  bool -> bool -> hier -> world -> nat -> ostate -> world * result
 
 val step_cy : bool -> bool -> hier -> world -> op -> world * result option
 
 val run_cy : bool -> bool -> hier -> world -> op list -> result list
-
-val is_ext : cls -> bool
 
 val wf_cls : hier -> nat -> cls -> bool
 
